@@ -25,6 +25,13 @@ use crate::khcommon::link_of;
 pub struct C20;
 
 const SIM_PATH: &str = "/sim/link.json";
+/// malformed link texts (not JSON, wrong shape, labels that are not small non-negative integers, labels not paired)
+const GARBAGE: &[&str] = &[
+    "[[1,2,3]]", "[[1,2,3,4,5]]", "[1,2,3,4]", "[[1,4,2,4],[3,6,4,1],[5,2,6,3]]", "[[1,2,3,4]]", "[[1,-4,2,5]]",
+    "[[1,4,2,5],[3,6,4,1],[5,2,6,3]", "{}", "[[1,1,1,1]]", "[[1,4,2,5],[3,6,4,1],[5,2,6,7]]",
+    "[[1.0,4,2,5],[3,6,4,1],[5,2,6,3]]", "[[1.5,4,2,5],[3,6,4,1],[5,2,6,3]]", "[[[1,4,2,5]],[[3,6,4,1]],[[5,2,6,3]]]",
+    "[[\"1\",4,2,5],[3,6,4,1],[5,2,6,3]]", "[[1,4,2,5],[3,6,4,1],[5,2,6,3]] x", "null", "", " ",
+];
 const RESOURCE_NAMES: &[&str] = &["3_1", "4_1", "5_1", "5_2", "6_1", "L2a1", "L4a1"];
 
 fn resource_path(name: &str) -> String {
@@ -191,6 +198,9 @@ fn c_params(c: &str) -> Option<(&'static str, i64, i64)> {
         "3" => Some(("num", 3, 0)),
         "1,1" => Some(("num", 1, 1)),
         "0,1" => Some(("num", 0, 1)),
+        // integer spellings that Rust's integer parser accepts
+        "+1" | "01" => Some(("num", 1, 0)),
+        "-1" => Some(("num", -1, 0)),
         "H" => Some(("H", 0, 0)),
         "0,T" => Some(("T", 0, 0)),
         "H,T" => Some(("HT", 0, 0)),
@@ -201,7 +211,7 @@ fn c_params(c: &str) -> Option<(&'static str, i64, i64)> {
 fn lib_answer(pd: &Pd, ctype: &str, c: &str, reduced: bool) -> Option<Cells> {
     let (kind, h, t) = c_params(c)?;
     // the parameters live in the coefficient ring: 2 = 0 in F2, 3 = 0 in F3
-    let (h, t) = match ctype { "F2" => (h % 2, t % 2), "F3" => (h % 3, t % 3), _ => (h, t) };
+    let (h, t) = match ctype { "F2" => (h.rem_euclid(2), t.rem_euclid(2)), "F3" => (h.rem_euclid(3), t.rem_euclid(3)), _ => (h, t) };
     let big = (h == 0 && t == 0) || kind == "H" || kind == "T";
     Some(match (ctype, kind) {
         ("Z", "num") => lib_cells::<i64>(pd, h, t, reduced, big),
@@ -239,7 +249,13 @@ fn gen_case_inner(rng: &mut Rng, idx: u64) -> Value {
     let enum_plan = enumerated_fault(idx);
     let cmd = if rng.chance(2, 3) { "kh" } else { "ckh" };
     let ctype = *rng.pick(&["Z", "Z", "Q", "F2", "F3", "", "Gauss"]);
-    let c = *rng.pick(&["0", "0", "0", "1", "2", "3", "1,1", "0,1", "H", "H", "0,T", "H,T", "x", "1,", ""]);
+    let c = if rng.chance(1, 8) {
+        // rarer spellings: integers with sign / leading zero (supported), malformed pairs and
+        // unsupported symbols (must be rejected)
+        *rng.pick(&["+1", "01", "-1", ",1", "1,1,1", "1 ,1", "h", "2H", "1x", "1,", "x"])
+    } else {
+        *rng.pick(&["0", "0", "0", "1", "2", "3", "1,1", "0,1", "H", "H", "0,T", "H,T", ""])
+    };
     let (mirror, reduced) = (rng.chance(1, 4), rng.chance(1, 3));
     let mut files = json!({});
     let mut disk_faults = json!([]);
@@ -251,8 +267,14 @@ fn gen_case_inner(rng: &mut Rng, idx: u64) -> Value {
         0..=2 => (rng.pick(RESOURCE_NAMES).to_string(), "name"),
         3..=5 => { let (_, pd) = diag::draw(rng, 6); (pd_to_json(&pd).to_string(), "pd") }
         6 => { let (_, pd) = diag::draw(rng, 6); files[SIM_PATH] = json!(pd_to_json(&pd).to_string()); (SIM_PATH.to_string(), "path") }
-        7 => (rng.pick(&["99_1", "3_9999", "K3a1", "foo", "/sim/missing.json", "../etc/passwd"]).to_string(), "unknown"),
-        8 => (rng.pick(&["[[1,2,3]]", "[[1,2,3,4,5]]", "[1,2,3,4]", "[[1,4,2,4],[3,6,4,1],[5,2,6,3]]", "[[1,2,3,4]]", "[[1,-4,2,5]]", "[[1,4,2,5],[3,6,4,1],[5,2,6,3]", "{}", "[[1,1,1,1]]", "[[1,4,2,5],[3,6,4,1],[5,2,6,7]]"]).to_string(), "garbage"),
+        7 => (rng.pick(&["99_1", "3_9999", "K3a1", "foo", "/sim/missing.json", "../etc/passwd", "/tmp", "/"]).to_string(), "unknown"),
+        10 => {
+            // a FILE with malformed content: files are parsed by a different code path than inline codes
+            let g = *rng.pick(GARBAGE);
+            files[SIM_PATH] = json!(g);
+            (SIM_PATH.to_string(), "path")
+        }
+        8 => (rng.pick(GARBAGE).to_string(), "garbage"),
         9 => {
             // stored file + disk fault
             let name = *rng.pick(RESOURCE_NAMES);
@@ -268,7 +290,10 @@ fn gen_case_inner(rng: &mut Rng, idx: u64) -> Value {
     };
     let mut argv = vec!["ykh".to_string(), cmd.to_string(), link_arg];
     if !ctype.is_empty() { argv.push("-t".into()); argv.push(ctype.to_string()); }
-    if !c.is_empty() || rng.chance(1, 2) { if !c.is_empty() { argv.push("-c".into()); argv.push(c.to_string()); } }
+    if !c.is_empty() {
+        // a value that starts with '-' has to be attached (`-c=-1`), as with any command line
+        if c.starts_with('-') { argv.push(format!("-c={c}")); } else { argv.push("-c".into()); argv.push(c.to_string()); }
+    }
     if mirror { argv.push("-m".into()); }
     if reduced { argv.push("-r".into()); }
     // internal failure: an injected panic at the n-th fault point of a kind
@@ -460,7 +485,7 @@ impl Check for C20 {
         } else {
             // ckh: Euler characteristic of the printed generator table
             let (kind, h, t) = c_params(c).unwrap();
-            let (h, t) = match ctype { "F2" => (h % 2, t % 2), "F3" => (h % 3, t % 3), _ => (h, t) };
+            let (h, t) = match ctype { "F2" => (h.rem_euclid(2), t.rem_euclid(2)), "F3" => (h.rem_euclid(3), t.rem_euclid(3)), _ => (h, t) };
             let graded = kind != "num" || (h == 0 && t == 0);
             let dg = Diagram::from_pd(&pd);
             let base = if reduced { pd.first().map(|x| *x.iter().min().unwrap()) } else { None };
